@@ -41,12 +41,15 @@ AddEdge(g, o, d, w) ==
 WeightOf(g, o, d)  == Incoming(g, d)[EdgeIdx(g, o, d)].w
 SetWeight(g, o, d, w) ==
   IF HasEdge(g, o, d) THEN [g EXCEPT !.edges[DestIdx(g, d)]["in"][EdgeIdx(g, o, d)].w = w] ELSE g
+\* canonical: a destination whose incoming list became empty is dropped (whether the implementation keeps an empty
+\* list under that key is not part of the value)
+DropEmpty(g) == [g EXCEPT !.edges = SelectSeq(@, LAMBDA e : e["in"] # <<>>)]
 RemoveNode(g, id) ==
-  [nodes |-> SelectSeq(g.nodes, LAMBDA n : n.id # id),
-   edges |-> LET kept == SelectSeq(g.edges, LAMBDA e : e.d # id) IN
-             [i \in 1..Len(kept) |-> [kept[i] EXCEPT !["in"] = SelectSeq(@, LAMBDA x : x.o # id)]]]
+  DropEmpty([nodes |-> SelectSeq(g.nodes, LAMBDA n : n.id # id),
+             edges |-> LET kept == SelectSeq(g.edges, LAMBDA e : e.d # id) IN
+                       [i \in 1..Len(kept) |-> [kept[i] EXCEPT !["in"] = SelectSeq(@, LAMBDA x : x.o # id)]]])
 RemoveEdge(g, o, d) ==
-  IF d \in DestIds(g) THEN [g EXCEPT !.edges[DestIdx(g, d)]["in"] = SelectSeq(@, LAMBDA x : x.o # o)] ELSE g
+  IF d \in DestIds(g) THEN DropEmpty([g EXCEPT !.edges[DestIdx(g, d)]["in"] = SelectSeq(@, LAMBDA x : x.o # o)]) ELSE g
 
 \* abstract view
 NodeMap(g) == [id \in NodeIds(g) |-> StateOf(g, id)]
@@ -91,6 +94,7 @@ GraphInstr == {"GRAPH.ADD", "GRAPH.DUP", "GRAPH.NODE*ADD", "GRAPH.NODE*GETSTATE"
 SetTop(s, g) == SetF(s, "graph", <<g>> \o Tail(s.graph))
 PushGraph(s, g) == IF Len(s.graph) >= GraphCap THEN s ELSE PushOn(s, "graph", g)
 PermHole(f) == <<Hole(<<f, 1>>, "perm")>>
+SetHole(f)  == <<Hole(<<f, 1>>, "sameset")>>
 
 RECURSIVE Switch(_, _, _, _, _, _)
 Switch(g, ids, sw, on, off, i) ==
@@ -100,7 +104,8 @@ Switch(g, ids, sw, on, off, i) ==
 \* queries on the graph at stack position p: states vector popped, result pushed
 NodesQuery(s1, g) ==
   IF ~Has(s1, "ivec", 1) THEN Unfired(s1)
-  ELSE FiredH(SetF(s1, "ivec", <<Filter(g, s1.ivec[1])>> \o Tail(s1.ivec)), PermHole("ivec"))
+  \* the node SET is specified; how often a node is listed when a state is repeated in the selection is not
+  ELSE FiredH(SetF(s1, "ivec", <<Filter(g, s1.ivec[1])>> \o Tail(s1.ivec)), SetHole("ivec"))
 
 AdjQuery(s, Q(_, _, _), ordered) ==
   IF s.graph = <<>> THEN Unfired(s)
